@@ -275,7 +275,7 @@ func c02(w *core.World, r *core.Report) {
 			n++
 			bad := ""
 			core.WithHost(low, func() {
-				for _, o := range core.Origins(a[0]) {
+				for _, o := range core.OriginsThroughCaptures(a[0]) {
 					if oc, ok := o.(*ssa.Call); ok && core.CalleeIs(oc, "datastore/types.Transaction.GetIntentNames") {
 						continue
 					}
@@ -522,8 +522,8 @@ func c05(w *core.World, r *core.Report) {
 	r.Rule("ROLLBACK-COMPLETE", 1, "GetRollbackTransaction hands every old intent to AddTransactionIntent and discards the result, so AddTransactionIntent must not be able to refuse one of them: its only failing return is the duplicate-name one (guarded by the 'exists' outcome of the lookup in the intent map). Any other refusal (an input check added for the request path) silently drops that intent from the rollback: Cancel and the timeout then leave it changed. Likewise Transaction.AddIntentContent records an entry (map update) before every success return: the snapshot of an intent that did not exist is an empty entry, and without it the created intent is not part of the rollback.")
 	if add := w.Func("pkg/datastore/types", "Transaction", "AddTransactionIntent"); add != nil {
 		n := 0
-		for i, ret := range core.EffectiveReturns(add) {
-			ev := errorOperand(ret)
+		for i, re := range errorReturnsThroughHelpers(add, 0) {
+			ret, ev := re.ret, re.err
 			if ev == nil || core.IsNilConst(ev) {
 				continue
 			}
@@ -713,6 +713,10 @@ func c05(w *core.World, r *core.Report) {
 
 // ruleCancelOutcome (C05, C16): the answer of TransactionManager.Cancel agrees with what happened to the rollback.
 func ruleCancelOutcome(w *core.World, r *core.Report, cancel *ssa.Function) {
+	core.WithHost(cancel, func() { ruleCancelOutcomeIn(w, r, cancel) })
+}
+
+func ruleCancelOutcomeIn(w *core.World, r *core.Report, cancel *ssa.Function) {
 	{
 		rbs := core.CallsTo(cancel, kRollbackIface)
 		if len(rbs) != 1 {
@@ -918,6 +922,38 @@ func detachedContext(v ssa.Value, depth int) bool {
 		}
 	}
 	return true
+}
+
+type errReturn struct {
+	ret *ssa.Return
+	err ssa.Value
+}
+
+// errorReturnsThroughHelpers lists the returns that decide the error f hands back: f's own returns with their error
+// operand, except that a return whose error operand is a result of a virtually inlined helper (err of
+// '_, err := t.storeIntent(...)'; 'return err') stands for that helper's returns.
+func errorReturnsThroughHelpers(f *ssa.Function, depth int) []errReturn {
+	var out []errReturn
+	for _, ret := range core.Returns(f) {
+		ev := errorOperand(ret)
+		if ev != nil && depth < 3 {
+			var c *ssa.Call
+			switch x := ev.(type) {
+			case *ssa.Extract:
+				c, _ = x.Tuple.(*ssa.Call)
+			case *ssa.Call:
+				c = x
+			}
+			if c != nil {
+				if h := core.InlinedCallee(c); h != nil {
+					out = append(out, errorReturnsThroughHelpers(h, depth+1)...)
+					continue
+				}
+			}
+		}
+		out = append(out, errReturn{ret, ev})
+	}
+	return out
 }
 
 // detachedContextIP is detachedContext that follows parameters to the arguments of all static call sites in the
